@@ -601,6 +601,59 @@ func (g *gen) doVerify() {
 		im.w.Script[target+":SetCheckpoint"] = "err"
 	}
 	im.w.ResetLog()
+	// sometimes a write arrives while the verification is inside its first call to a replica (it holds
+	// the controller lock): the write must be served after the promotion — every RW replica, the promoted
+	// one included, then counts it, and all RW replicas report the same count
+	var wres chan string
+	if !im.c.ReadOnly && len(im.w.Script) == 0 && setRwOk && setRevOk && g.rng.Float64() < 0.3 {
+		wres = make(chan string, 1)
+		launched := false
+		im.w.OnHTTP = func(string) {
+			launched = true
+			go func() {
+				k, err := im.c.WriteAt(make([]byte, 4096), 0)
+				r := classify(err, "Mode: ReadOnly", "EOF:")
+				if err == nil && k != 4096 {
+					r = "failed"
+				}
+				wres <- r
+			}()
+			time.Sleep(80 * time.Millisecond)
+		}
+		defer func() {
+			im.w.OnHTTP = nil
+			if !launched {
+				return
+			}
+			r := "hung"
+			select {
+			case r = <-wres:
+			case <-time.After(10 * time.Second):
+			}
+			if r == "ok" && im.w.Reps[target] != nil {
+				// the promoted replica was given the count N of an RW replica and then, RW itself, took the write:
+				// it must report N+1 (like the replica the count was taken from)
+				promoted := false
+				for _, x := range im.c.ListReplicas() {
+					if x.Address == target && x.Mode == types.RW {
+						promoted = true
+					}
+				}
+				given := int64(-1)
+				for _, call := range im.w.TakeCalls() {
+					if strings.HasPrefix(call, target+":SetRevisionCounter ") {
+						fmt.Sscan(strings.TrimPrefix(call, target+":SetRevisionCounter "), &given)
+					}
+				}
+				if got := im.w.Reps[target].Rev; promoted && given >= 0 && got != given+1 {
+					r = fmt.Sprintf("ok-but-the-promoted-replica-reports-%d-after-being-given-%d-and-one-write", got, given)
+				}
+			}
+			g.lines = append(g.lines, "w 0 4096 | - | -")
+			g.outs = append(g.outs, "~|"+g.im.state(r))
+			g.feat["verify-overlapped-by-write"] = true
+		}()
+	}
 	res := func() (out string) {
 		defer func() {
 			if p := recover(); p != nil {
@@ -612,6 +665,16 @@ func (g *gen) doVerify() {
 	im.w.ModeFail, im.w.RevFail = nil, nil
 	if res == "failed" {
 		res = "refused"
+	}
+	if wres != nil {
+		// the calls of the two requests are logged together: only the result of the verification is compared
+		g.lines = append(g.lines, fmt.Sprintf("verify %s | %s %s %s %s %s %s %s", target, rwc, woc, ck, rev, b01(setRwOk), b01(setRevOk), g.ckEnv()))
+		g.outs = append(g.outs, "*|"+res+" ; ")
+		g.feat["verify"] = true
+		if res == "ok" {
+			g.feat["promoted"] = true
+		}
+		return
 	}
 	g.emit(fmt.Sprintf("verify %s | %s %s %s %s %s %s %s", target, rwc, woc, ck, rev, b01(setRwOk), b01(setRevOk), g.ckEnv()), res)
 	g.feat["verify"] = true
@@ -828,7 +891,16 @@ func (g *gen) doResize() {
 	fails := g.pickFails(g.nonErrBackends(), "Resize", 0.7)
 	im.w.ResetLog()
 	err := im.c.Resize("v", fmt.Sprint(sz))
-	g.emit(fmt.Sprintf("resize %d | %s", sz, orDash(fails)), classify(err, "Size can only", "same as size"))
+	res := classify(err, "Size can only", "same as size")
+	if res == "ok" {
+		// every replica that took the request has exactly the size that was asked for
+		for _, r := range g.replicas() {
+			if rep := im.w.Reps[r.Address]; rep != nil && r.Mode != types.ERR && rep.Size != sz {
+				res = fmt.Sprintf("ok-but-replica-%s-has-size-%d", short(r.Address), rep.Size)
+			}
+		}
+	}
+	g.emit(fmt.Sprintf("resize %d | %s", sz, orDash(fails)), res)
 	g.feat["resize"] = true
 }
 
